@@ -8,5 +8,8 @@ func main() {
 		xlate.Spec{Pkg: "proxy/search", Recv: "Ingestor", Name: "paginateIDs"},
 		// fractions are an interface: Info() stays uninterpreted; IDs and Info values are opaque, read through accessors
 		xlate.Spec{Pkg: "fracmanager", Name: "calcEnsuredIDsCount", Oracles: []string{"Fraction.Info"}},
+		// the loop of Searcher.SearchDocs: its condition and the limit for the next round
+		xlate.Spec{Pkg: "fracmanager", Recv: "Searcher", Name: "SearchDocs", As: "searchLoopCond", Stmts: []string{"for len(remainingFracs) > 0"}},
+		xlate.Spec{Pkg: "fracmanager", Recv: "Searcher", Name: "SearchDocs", As: "nextLimit", Stmts: []string{"params.Limit = origLimit -"}},
 	)
 }
